@@ -9,7 +9,9 @@ package main
 // disconnects, Heartbeat and NormalizingPool rounds). A tracer bound to the
 // supervisor machine samples VerifPool() at every TransitionEnd and around the
 // gate handlers; every transition becomes one observed event of the Coq event
-// model (Conc/Pool.v). State-group exclusivity is additionally explored on
+// model (Conc/Pool.v). The listing of every round of the normalizer is the
+// event ENormalize: its record carries the tracked count of that transition
+// and the ForkWorker mutations the listing goroutine queued afterwards. State-group exclusivity is additionally explored on
 // handler-less machines built from the real schemas; group membership and the
 // schemas are read from the real states packages at run time.
 
@@ -22,6 +24,7 @@ import (
 	"os"
 	"os/exec"
 	"reflect"
+	"runtime"
 	"slices"
 	"sort"
 	"strings"
@@ -49,7 +52,8 @@ type C15Step struct {
 	// done     complete the W-th pending seamed fork successfully (fake entry, never RPC-ready)
 	// fail     complete the W-th pending seamed fork with an error
 	// real     complete the W-th pending seamed fork by starting a real in-process node.Worker
-	// err      AddErrWorker for the W-th tracked worker (N=1: wrapped ErrWorkerKill, N=2: unknown address)
+	// drain    complete pending seamed forks successfully, one after another, until none is left (at most N, default 16)
+	// err      AddErrWorker for the W-th tracked worker (N=1: wrapped ErrWorkerKill, N=2: unknown address, N=3: ErrWorkerHealth)
 	// err2     two AddErrWorker calls queued back to back (inside one Machine.Eval) for the W-th and (W+N)-th tracked worker
 	// kill     Add KillingWorker for the W-th tracked worker (N=1: the seam returns an error, N=2: the seam "forgets" WorkerKilled)
 	// killed   Add WorkerKilled for the W-th tracked worker
@@ -102,6 +106,11 @@ type c15Rec struct {
 	After   []int  `json:"after"`
 	Kills   []int  `json:"kills,omitempty"`
 	Started bool   `json:"fork_started,omitempty"`
+	// ENormalize: id of the round, ForkWorker mutations queued by the listing
+	// goroutine before its next mutation, 1 when that count is final
+	Round []int `json:"round,omitempty"`
+	// EForkReq / EForking: id of the round that requested the fork (0: the driver)
+	Src int `json:"src,omitempty"`
 }
 
 type c15Obs struct {
@@ -111,6 +120,8 @@ type c15Obs struct {
 	Err     string   `json:"err,omitempty"`
 	Dropped int      `json:"dropped"` // identical neutral samples not recorded
 	MaxSeen int      `json:"max_tracked"`
+	Rounds  int      `json:"rounds"`     // listings of the normalizer
+	RoundRq int      `json:"round_forks"` // ForkWorker mutations they requested
 	Note    []string `json:"note,omitempty"`
 }
 
@@ -136,8 +147,61 @@ type c15Tracer struct {
 	unstable *atomic.Int32
 	closed   atomic.Bool // teardown: disposal is not a withdrawal
 	maxSeen  int
+	// rounds of the normalizer
+	// (MutationQueued runs on the queuing goroutine AFTER the mutation is in the
+	// queue: the transition may be over before it is called, so records and
+	// rounds are matched up at the end of the case, see finishRounds)
+	rounds    []*c15Round
+	open      map[uint64]*c15Round // by goroutine: the round whose fork loop may still be running
+	forkRound map[*am.Mutation]int // ForkWorker mutation -> id of the round that queued it
+	listRecs  []c15RecRef          // records of listings
+	forkRecs  []c15RecRef          // records of ForkWorker transitions
+	startRecs []c15RecRef          // records of ForkingWorker transitions (tx = the requesting transition)
 	// notifications for the driver
 	events chan struct{}
+}
+
+// c15Round is one round of NormalizingPoolState's goroutine: the listing
+// (Add ListWorkers with an empty WorkerState, which only the normalizer
+// issues) and the ForkWorker mutations the SAME goroutine queues before it
+// queues anything else (its next listing, PoolReady, PoolNormalized, an error).
+type c15Round struct {
+	id     int
+	gid    uint64
+	mut    *am.Mutation
+	forks  int
+	closed bool // the goroutine moved on: the fork loop is over
+	// ... to the readiness check (Workers(ctx, StateReady) inside Interval): the
+	// listing reached the fork loop. A round without requests that is followed
+	// by anything else may have been skipped: Workers() fails although the
+	// listing ran when Machine.Add returns Canceled - the caller found the queue
+	// already emptied by the goroutine that was running it - and the normalizer
+	// lists again at once (or gives up after the 5th round)
+	checked bool
+	at      time.Time
+}
+
+type c15RecRef struct {
+	idx int
+	mut *am.Mutation
+	tx  string
+	at  time.Time
+}
+
+// c15Gid is the id of the calling goroutine (MutationQueued runs on the
+// goroutine that called Add). Ids are never reused.
+func c15Gid() uint64 {
+	var buf [64]byte
+	b := buf[:runtime.Stack(buf[:], false)]
+	b = bytes.TrimPrefix(b, []byte("goroutine "))
+	var id uint64
+	for _, ch := range b {
+		if ch < '0' || ch > '9' {
+			break
+		}
+		id = id*10 + uint64(ch-'0')
+	}
+	return id
 }
 
 func (t *c15Tracer) key(addr string) int {
@@ -201,16 +265,81 @@ func (t *c15Tracer) HandlerEnd(tx *am.Transition, _ string, h string) {
 }
 
 func (t *c15Tracer) MutationQueued(_ am.Api, mut *am.Mutation) {
-	if mut.Type != am.MutationAdd || len(mut.Called) != 1 ||
-		t.names[mut.Called[0]] != c15S.KillingWorker {
+	if t.closed.Load() {
 		return
 	}
-	a := am.ParseArgs[node.A](mut.Args)
+	single := ""
+	if mut.Type == am.MutationAdd && len(mut.Called) == 1 {
+		single = t.names[mut.Called[0]]
+	}
+	gid := c15Gid()
 	t.mx.Lock()
 	defer t.mx.Unlock()
-	if t.inTx {
-		t.cur.Kills = append(t.cur.Kills, t.key(a.LocalAddr))
+	// rounds: whatever the listing goroutine queues next that is not a fork
+	// request ends its fork loop
+	if r := t.open[gid]; r != nil {
+		if single == c15S.ForkWorker {
+			r.forks++
+			t.forkRound[mut] = r.id
+		} else {
+			r.closed = true
+			if single == c15S.ListWorkers {
+				a := am.ParseArgs[node.A](mut.Args)
+				r.checked = a.WorkerState == node.StateReady && a.WorkersCh != nil
+			}
+			delete(t.open, gid)
+		}
 	}
+	switch single {
+	case c15S.ListWorkers:
+		a := am.ParseArgs[node.A](mut.Args)
+		if a.WorkerState == "" && a.WorkersCh != nil {
+			r := &c15Round{id: len(t.rounds) + 1, gid: gid, mut: mut, at: time.Now()}
+			t.rounds = append(t.rounds, r)
+			t.open[gid] = r
+		}
+	case c15S.KillingWorker:
+		if t.inTx {
+			a := am.ParseArgs[node.A](mut.Args)
+			t.cur.Kills = append(t.cur.Kills, t.key(a.LocalAddr))
+		}
+	}
+}
+
+// finishRounds matches records and rounds: the fork counts go into the listing
+// records, the requesting round into the fork records (t.mx held)
+func (t *c15Tracer) finishRounds() (n, forks int) {
+	byMut := map[*am.Mutation]*c15Round{}
+	for _, r := range t.rounds {
+		byMut[r.mut] = r
+	}
+	for _, ref := range t.listRecs {
+		r := byMut[ref.mut]
+		if r == nil {
+			continue // 1:11
+		}
+		// the count is compared for equality only when the goroutine was seen to
+		// move on, the listing was answered in time (Workers() gives up after
+		// OpTimeout = 1s) and the round is known not to have been skipped
+		final := 0
+		if r.closed && (r.forks > 0 || r.checked) && ref.at.Sub(r.at) < 400*time.Millisecond {
+			final = 1
+		}
+		t.recs[ref.idx].Round = []int{r.id, r.forks, final}
+		n++
+		forks += r.forks
+	}
+	txRound := map[string]int{}
+	for _, ref := range t.forkRecs {
+		if id := t.forkRound[ref.mut]; id != 0 {
+			t.recs[ref.idx].Src = id
+			txRound[ref.tx] = id
+		}
+	}
+	for _, ref := range t.startRecs {
+		t.recs[ref.idx].Src = txRound[ref.tx]
+	}
+	return
 }
 
 func (t *c15Tracer) classify(tx *am.Transition) (string, string) {
@@ -253,6 +382,10 @@ func (t *c15Tracer) classify(tx *am.Transition) (string, string) {
 			return fmt.Sprintf("(EKilling %d)", t.key(a.LocalAddr)), name
 		case c15S.PoolReady:
 			return "ETryReady", name
+		case c15S.ListWorkers:
+			if a.WorkerState == "" && a.WorkersCh != nil {
+				return "ENormalize", name
+			}
 		}
 	}
 	if len(called) == 1 && mut.Type == am.MutationRemove && called[0] == c15S.PoolReady {
@@ -294,6 +427,19 @@ func (t *c15Tracer) TransitionEnd(tx *am.Transition) {
 	rec.Before, rec.After = before, after
 	if a > t.maxSeen {
 		t.maxSeen = a
+	}
+	// filled in by finishRounds
+	ref := c15RecRef{idx: len(t.recs), mut: tx.Mutation, tx: tx.Id, at: time.Now()}
+	switch {
+	case ev == "ENormalize":
+		t.listRecs = append(t.listRecs, ref)
+	case ev == "EForkReq":
+		t.forkRecs = append(t.forkRecs, ref)
+	case strings.HasPrefix(ev, "(EForking"):
+		if src := tx.Mutation.Source; src != nil {
+			ref.tx = src.TxId
+			t.startRecs = append(t.startRecs, ref)
+		}
 	}
 	neutral := ev == "EOther" && rec.FGate == nil && rec.RGate == nil && len(rec.Kills) == 0
 	isList := strings.Contains(name, c15S.ListWorkers)
@@ -620,6 +766,20 @@ func (r *c15Run) step(st C15Step) {
 			}
 			r.waitFor(400*time.Millisecond, func() bool { return r.sawSince(from, want) })
 		}
+	case "drain":
+		n := st.N
+		if n <= 0 {
+			n = 16
+		}
+		for i := 0; i < n; i++ {
+			if !r.waitFor(40*time.Millisecond, func() bool { return r.nPending() > 0 }) {
+				break
+			}
+			at := r.nRecs()
+			if p := r.release(0, "ok"); p != nil {
+				r.waitFor(400*time.Millisecond, func() bool { return r.sawSince(at, "(ESetIns") })
+			}
+		}
 	case "real":
 		r.unstable.Add(1)
 		if p := r.release(st.W, "real"); p != nil {
@@ -643,6 +803,8 @@ func (r *c15Run) step(st C15Step) {
 		err := errC15Worker
 		if st.N == 1 {
 			err = fmt.Errorf("%w: %w", node.ErrWorkerKill, errC15Worker)
+		} else if st.N == 3 {
+			err = node.ErrWorkerHealth
 		}
 		node.AddErrWorker(nil, s.Mach, err, node.Pass(&node.A{LocalAddr: addr}))
 	case "err2":
@@ -762,7 +924,8 @@ func c15ExecPool(in *C15Input) *c15Obs {
 		idx[n] = i
 	}
 	r.tr = &c15Tracer{TracerNoOp: &am.TracerNoOp{Id: "c15"}, s: s, names: names, idx: idx,
-		keys: map[string]int{}, unstable: &r.unstable, events: make(chan struct{}, 1), last: time.Now()}
+		keys: map[string]int{}, unstable: &r.unstable, events: make(chan struct{}, 1), last: time.Now(),
+		open: map[uint64]*c15Round{}, forkRound: map[*am.Mutation]int{}}
 	_, _ = s.Mach.BindTracer(r.tr)
 	s.TestFork = r.testFork
 	s.TestKill = r.testKill
@@ -816,6 +979,7 @@ func c15ExecPool(in *C15Input) *c15Obs {
 		obs.Note = append(obs.Note, "supervisor machine not disposed after 2s")
 	}
 	r.tr.mx.Lock()
+	obs.Rounds, obs.RoundRq = r.tr.finishRounds()
 	obs.Recs = r.tr.recs
 	obs.Dropped = r.tr.dropped
 	obs.MaxSeen = r.tr.maxSeen
@@ -1086,12 +1250,16 @@ func c15Pair(p []int) string {
 }
 
 func c15CoqRec(r *c15Rec) string {
+	round := "None"
+	if len(r.Round) == 3 {
+		round = fmt.Sprintf("(Some (%d%%N, %d%%N, %s))", r.Round[0], r.Round[1], coqBool(r.Round[2] == 1))
+	}
 	return fmt.Sprintf("{| o_ev := %s; o_acc := %s; o_fgate := %s; o_rgate := %s; o_rexit := %s; o_rstable := %s; "+
 		"o_tracked := %d; o_ready := %d; o_min := %d; o_exact := %s; o_before := %s; o_after := %s; "+
-		"o_kills := %s; o_started := %s |}",
+		"o_kills := %s; o_started := %s; o_round := %s; o_src := %d |}",
 		r.Ev, coqBool(r.Acc), c15Pair(r.FGate), c15Pair(r.RGate), coqBool(r.RExit), coqBool(r.RStable),
 		r.Tracked, r.Ready, r.MinEff, coqBool(r.Exact), coqNatList(r.Before), coqNatList(r.After),
-		coqNatList(r.Kills), coqBool(r.Started))
+		coqNatList(r.Kills), coqBool(r.Started), round, r.Src)
 }
 
 func c15CoqSets(sets [][]int) string {
@@ -1114,8 +1282,8 @@ func c15Coq(in *C15Input, obs *c15Obs, prIdx, ewIdx int, ewMulti bool) string {
 	for i := range obs.Recs {
 		parts[i] = c15CoqRec(&obs.Recs[i])
 	}
-	return fmt.Sprintf("C15Pool {| c_min := %d; c_max := %d; c_errkill := %d |} %s %d%%nat %d%%nat sup_groups\n  %s\n  wrk_groups %s",
-		in.Min, in.Max, in.ErrKill, coqBool(ewMulti), prIdx, ewIdx, coqList(parts), c15CoqSets(obs.WSets))
+	return fmt.Sprintf("C15Pool {| c_min := %d; c_max := %d; c_errkill := %d; c_warm := %d |} %s %d%%nat %d%%nat sup_groups\n  %s\n  wrk_groups %s",
+		in.Min, in.Max, in.ErrKill, in.Warm, coqBool(ewMulti), prIdx, ewIdx, coqList(parts), c15CoqSets(obs.WSets))
 }
 
 // ---------------------------------------------------------------- generators
@@ -1186,6 +1354,76 @@ func c15GenPool(r *Rng, real bool) *C15Input {
 			st.N = r.Range(1, 40)
 		}
 		in.Steps = append(in.Steps, st)
+	}
+	return in
+}
+
+// c15GenNormalize: rounds of the normalizer on pools with errored workers.
+// The pool is brought to its target (every pending fork completed), some
+// tracked workers get 1..WorkerErrKill errors - one at a time, each after the
+// previous ErrWorker was handled - then rounds run (every ErrWorker /
+// WorkerKilled adds NormalizingPool; explicit NormalizingPool / Heartbeat
+// requests) with nothing else in flight, and whatever they forked is completed.
+func c15GenNormalize(r *Rng) *C15Input {
+	in := &C15Input{ErrKill: r.Range(1, 3), ConnMs: 5000, SetPool: r.Chance(20)}
+	in.Max = r.Range(2, 6)
+	if r.Chance(65) {
+		// Min = 0: a round is over at once (PoolReady needs nobody), the next
+		// request for NormalizingPool starts a new one
+		in.Min = 0
+		in.Warm = r.Range(1, in.Max-1)
+	} else {
+		// Min > 0 and seamed workers never get ready: the rounds of one
+		// activation follow each other every ConnTimeout + PoolPause
+		in.Min = r.Range(1, in.Max-1)
+		in.Warm = r.Range(0, in.Max-in.Min)
+		in.ConnMs = r.Range(30, 60)
+	}
+	if r.Chance(12) {
+		in.Warm = r.Intn(7) // pools without free slots as well
+	}
+	add := func(op string, w, n int) { in.Steps = append(in.Steps, C15Step{Op: op, W: w, N: n}) }
+	pause := func() { add("wait", 0, r.Range(25, 70)) }
+	round := func() {
+		switch x := r.Intn(10); {
+		case x < 5:
+			add("norm", 0, 0)
+		case x < 7:
+			add("hb", 0, 0)
+		}
+		pause()
+		add("drain", 0, 0)
+	}
+	add("wait", 0, 20)
+	add("drain", 0, 0)
+	if r.Chance(35) {
+		// a worker is killed and removed: WorkerKilled adds NormalizingPool
+		if r.Chance(70) {
+			add("kill", r.Intn(6), 0)
+		} else {
+			add("killed", r.Intn(6), 0)
+		}
+		pause()
+		add("drain", 0, 0)
+	}
+	for rounds := r.Range(1, 3); rounds > 0; rounds-- {
+		first := r.Intn(6)
+		for k := r.Range(1, 3); k > 0; k-- {
+			for e := r.Range(1, in.ErrKill); e > 0; e-- {
+				n := 0
+				if r.Chance(40) {
+					n = 3
+				}
+				add("err", first+k, n)
+				pause()
+			}
+		}
+		round()
+	}
+	if r.Chance(30) {
+		add("fork", 0, 0)
+		add("drain", 0, 0)
+		round()
 	}
 	return in
 }
@@ -1267,6 +1505,20 @@ func runC15(c *Ctx) error {
 				}
 			}
 			out.Count("max_tracked_minus_max", fmt.Sprint(obs.MaxSeen-in.Max))
+			out.Count("free_slots_over_target", fmt.Sprint(in.Max > min(in.Min, in.Max)+in.Warm))
+			out.Count("normalizer_rounds_per_case", bucket(obs.Rounds))
+			errored := map[string]bool{}
+			for i := range obs.Recs {
+				rec := &obs.Recs[i]
+				if strings.HasPrefix(rec.Ev, "(EErr ") && rec.Acc && strings.HasSuffix(rec.Ev, "true)") {
+					errored[strings.Fields(rec.Ev)[1]] = true
+				}
+				if len(rec.Round) == 3 {
+					out.Count("round_forks_requested", fmt.Sprint(rec.Round[1]))
+					out.Count("round_count_final", fmt.Sprint(rec.Round[2] == 1))
+					out.Count("round_listing_with_errored_workers", fmt.Sprint(len(errored) > 0))
+				}
+			}
 			out.Count("events_per_case", bucket(len(obs.Recs)))
 			out.Count("real_workers", fmt.Sprint(len(obs.WSets) > 0))
 			trivial = len(obs.Recs) < 6
@@ -1336,20 +1588,26 @@ func runC15(c *Ctx) error {
 	jobs = nil
 	nPool := c.N(260, 4000)
 	nReal := c.N(24, 300)
+	nNorm := c.N(70, 1200)
 	nExp := c.N(300, 6000)
 	switch os.Getenv("C15_ONLY") { // debugging aid
 	case "pool":
-		nReal, nExp = 0, 0
+		nReal, nExp, nNorm = 0, 0, 0
 	case "real":
-		nPool, nExp = 0, 0
+		nPool, nExp, nNorm = 0, 0, 0
 	case "explore":
-		nPool, nReal = 0, 0
+		nPool, nReal, nNorm = 0, 0, 0
+	case "normalize":
+		nPool, nReal, nExp = 0, 0, 0
 	}
 	for i := 0; i < nPool; i++ {
 		jobs = append(jobs, &job{kind: "gen:pool", in: c15GenPool(c.Rng, false)})
 	}
 	for i := 0; i < nReal; i++ {
 		jobs = append(jobs, &job{kind: "gen:pool-real-workers", in: c15GenPool(c.Rng, true)})
+	}
+	for i := 0; i < nNorm; i++ {
+		jobs = append(jobs, &job{kind: "gen:pool-normalize", in: c15GenNormalize(c.Rng)})
 	}
 	runAll(jobs, 6)
 	// the sets cases are small
